@@ -35,7 +35,8 @@ def impl(case):
 
 def make_case(rng, i, tier):
     R = rng.choice(["Float", "Float", "Boolean"])
-    desc, shape = gen.gen_cfg(rng, maxrules=5 if tier == "quick" else 7, convergent=False, nnt=rng.choice([1, 2, 2, 3]))
+    force = "lc_unary_cycle" if rng.random() < 0.12 else None
+    desc, shape = gen.gen_cfg(rng, shape=force, maxrules=(2 if force else 5) if tier == "quick" else 7, convergent=False, nnt=1 if force else rng.choice([1, 2, 2, 3]))
     if R == "Boolean":
         desc = gen.to_bool(desc)
     elif rng.random() < 0.15:  # a rule with non-positive weight is dropped by the Boolean mapping
@@ -62,6 +63,12 @@ def make_case(rng, i, tier):
         if tuple(c) not in seen and len(c) <= (5 if tier == "quick" else 6):
             seen.add(tuple(c))
             cs.append(c)
+    if force:
+        # an error in the predictor shows one token after its cause: all short contexts, one LM object for all of them
+        allc = gen.all_strings(V, 4)
+        rng.shuffle(allc)
+        cs = cs[:6] + [c for c in allc if tuple(c) not in seen][:40]
+        return {"id": i, "shape": shape, "R": R, "cfg": desc, "ctxs": cs, "algs": ["earley", "cky"]}
     return {"id": i, "shape": shape, "R": R, "cfg": desc, "ctxs": cs[:10], "algs": ["earley", "cky"]}
 
 
@@ -80,7 +87,15 @@ def tiny_grammars(maxn):
 
 def corpus():
     g = {"S": "S", "V": ["a", "b"], "rules": [["1", "S", ["a", "S", "b"]], ["1", "S", []], ["1", "S", ["S", "S"]], ["1", "S", ["A"]], ["1", "A", ["S"]]]}
-    return [{"shape": "corpus_F1", "R": "Float", "cfg": g, "ctxs": [[], ["a"], ["b"], ["a", "b"], ["a", "b", EOS]], "algs": ["earley", "cky"]}]
+    # indirect left-corner cycle with a unary way back (seeded change C01_n2: memoised left-corner closure), both rule orders
+    lc = [["1", "S", ["B", "x", "D", "z"]], ["1", "B", ["D", "a"]], ["1", "B", ["t"]], ["1", "B", ["u"]], ["1", "B", ["v"]], ["1", "B", ["w"]],
+          ["1", "D", ["B"]], ["1", "D", ["c", "D", "b"]]]
+    lcc = [[], ["t"], ["t", "x"], ["t", "x", "w"], ["t", "x", "w", "z"], ["t", "x", "w", "a"], ["t", "x", "c"], ["t", "x", "c", "u", "b"], ["t", "a", "x", "v"], ["t", "x", "w", "z", EOS]]
+    out = [{"shape": "corpus_F1", "R": "Float", "cfg": g, "ctxs": [[], ["a"], ["b"], ["a", "b"], ["a", "b", EOS]], "algs": ["earley", "cky"]}]
+    for rules in (lc, lc[::-1]):
+        out.append({"shape": "corpus_lc_unary_cycle", "R": "Boolean", "cfg": gen.to_bool({"S": "S", "V": ["a", "b", "c", "t", "u", "v", "w", "x", "z"], "rules": rules}),
+                    "ctxs": lcc, "algs": ["earley", "cky"]})
+    return out
 
 
 def run(ctx):
